@@ -15,7 +15,9 @@ CHECK = dict(
            "plain-tbb:asynctask_scenarios": 100, "plain-internal:asynctask_scenarios": 100,
            "plain-omp:asynctask_scenarios": 100, "plain-debug:asynctask_scenarios": 100,
            "plain-internal:reconfigured_while_work_queued": 3, "plain-tbb:reconfigured_while_work_queued": 3,
-           "asan-internal:reconfigured_while_work_queued": 3},
+           "asan-internal:reconfigured_while_work_queued": 3,
+           "plain-internal:busy_submitter_rounds": 40, "plain-tbb:busy_submitter_rounds": 40,
+           "plain-internal:single_submissions": 20000, "plain-tbb:single_submissions": 20000},
     assumptions=[
         "re-configuring the tasking system (initTaskingSystem with another thread count, from the thread that submitted) while work is "
         "queued is a caller action unrelated to that work: it must still run exactly once",
